@@ -4,16 +4,13 @@ set_option linter.unusedVariables false
 set_option linter.unnecessarySimpa false
 namespace NA.C19
 
-theorem tf2_total (c : Cmd) (a : F2) (ok : Bool) : ∃ x, tf2 c a ok = some x := by
-  cases c <;> simp [tf2] <;> (try split) <;> simp <;> (try split) <;> simp
-
 /-- Own step in the calm domain: the branch taken is one the transfer function foresees, and its
 facts hold afterwards. -/
 theorem own3 {i : Instr} {a : F3} {g : G} {p : Proc}
-    (hΓ : Γ3 a g p) (hgi : GI1 g) (hdh : DirsInHist g) (hvg : VG g) (hvp : VP g p) (hN : quiet g → N g)
-    (hreq : req3 i.cmd a = true) :
+    (hΓ : Γ3 a g p) (hgi : GI1 g) (hgi4 : GI4 g) (hdh : DirsInHist g) (hvg : VG g) (hvp : VP g p)
+    (hN : quiet g → N g) (hreq : req3 i.cmd a = true) :
     ∃ x, tf3 i.cmd a (exec i.cmd g p).2.2 = some x ∧ Γ3 x (exec i.cmd g p).1 (after i g p) := by
-  have hc := okc_all i.cmd hΓ hvg hgi hdh
+  have hc := okc_all i.cmd hΓ hvg hgi hgi4 hdh
     (pc := if (exec i.cmd g p).2.2 then i.ok else i.fail) (t := (exec i.cmd g p).2.1.touched || i.cmd.mutating)
   unfold OkC at hc
   cases htc : tfc i.cmd a (exec i.cmd g p).2.2 with
@@ -25,7 +22,8 @@ theorem own3 {i : Instr} {a : F3} {g : G} {p : Proc}
     obtain ⟨xs, hxs⟩ := hx1
     have hr1 : req1 i.cmd a.s = true := by
       simp only [req3, Bool.and_eq_true] at hreq; exact hreq.1
-    refine ⟨⟨xn, xs, xc⟩, by simp [tf3, hxn, hxs, htc], ?_, ?_, hc⟩
+    obtain ⟨xk, hxk⟩ := tf4_feasible (c := i.cmd) hΓ.k
+    refine ⟨⟨xn, xs, xk, xc⟩, by simp [tf3, hxn, hxs, hxk, htc], ?_, ?_, own4 hΓ.k hvg hvp hgi4.hpos hxk, hc⟩
     · exact own1 hΓ.s hr1 hxs
     · intro hq
       have haq := tfc_quiet htc hq
@@ -43,15 +41,15 @@ theorem mem_replaceProc_of {ps : List Proc} {q p' : Proc} (hq : q ∈ ps) :
   unfold replaceProc
   exact List.mem_map.mpr ⟨q, hq, rfl⟩
 
-theorem lockOK_step {prog : Prog} {s : State} (h : LockOK s) (e : Event) : LockOK (step prog s e) := by
+theorem lockOK_stepCore {prog : Prog} {s : State} (h : LockOK s) (e : Event) : LockOK (stepCore prog s e) := by
   cases e with
-  | commit good pol email => intro pid hl; exact h pid (by simpa [step, applyCommit] using hl)
+  | commit good pol email => intro pid hl; exact h pid (by simpa [stepCore, applyCommit] using hl)
   | spawn =>
     intro pid hl
-    obtain ⟨p, hp, h1, h2⟩ := h pid (by simpa [step] using hl)
-    exact ⟨p, by simp [step, hp], h1, h2⟩
+    obtain ⟨p, hp, h1, h2⟩ := h pid (by simpa [stepCore] using hl)
+    exact ⟨p, by simp [stepCore, hp], h1, h2⟩
   | kill pid0 =>
-    simp only [step]
+    simp only [stepCore]
     cases hf : findProc s.procs pid0 with
     | none => exact h
     | some p =>
@@ -72,7 +70,7 @@ theorem lockOK_step {prog : Prog} {s : State} (h : LockOK s) (e : Event) : LockO
           exact ⟨q, this, h1, h2⟩
       · simp [hal]; exact h
   | step pid0 =>
-    simp only [step]
+    simp only [stepCore]
     cases hf : findProc s.procs pid0 with
     | none => exact h
     | some p =>
@@ -129,14 +127,20 @@ theorem lockOK_step {prog : Prog} {s : State} (h : LockOK s) (e : Event) : LockO
               simp [after_pid] at this
               exact ⟨_, this, by rw [after_pid]; exact hl, hal'⟩
       · simp [hal]; exact h
+  | killDuring pid => exact h
 
-theorem lockOK_run {prog : Prog} (se : Bool) (es : List Event) : LockOK (run prog se es) := by
+theorem lockOK_step {prog : Prog} (hinh : inhOK prog = true) {s : State} (h : LockOK s) (e : Event) :
+    LockOK (step prog s e) :=
+  step_lift hinh (P := LockOK) (fun _ e h => lockOK_stepCore h e) (fun _ _ h => h) s e h
+
+theorem lockOK_run {prog : Prog} (hinh : inhOK prog = true) (se : Bool) (es : List Event) :
+    LockOK (run prog se es) := by
   unfold run
   have h0 := lockOK_init se
   generalize init se = s0 at h0
   induction es generalizing s0 with
   | nil => exact h0
-  | cons e es ih => exact ih _ (lockOK_step h0 e)
+  | cons e es ih => exact ih _ (lockOK_step hinh h0 e)
 
 theorem lock_none_of_quiescent {s : State} (h : LockOK s) (hq : quiescent s = true) : s.g.lock = none := by
   cases hl : s.g.lock with
@@ -206,13 +210,44 @@ structure CalmSt (ann : Ann calm) (s : State) (pid : Nat) : Prop where
 theorem newest_release {g : G} {pid : Nat} : (release g pid).newest = g.newest := by
   unfold release; split <;> rfl
 
+/-- `runAlone` without the orphan mechanism (the invocation that runs alone was never hit by `killDuring`). -/
+def runAloneC (prog : Prog) : Nat → State → Nat → State
+  | 0, s, _ => s
+  | fuel + 1, s, pid =>
+    match findProc s.procs pid with
+    | some p => if p.alive then runAloneC prog fuel (stepCore prog s (.step pid)) pid else s
+    | none => s
+
+theorem stepCore_step_dying {prog : Prog} (s : State) (pid : Nat) : (stepCore prog s (.step pid)).dying = s.dying := by
+  simp only [stepCore]
+  split
+  · split <;> rfl
+  · rfl
+
+theorem runAlone_eq {prog : Prog} (pid : Nat) : ∀ (n : Nat) (s : State), s.dying.contains pid = false →
+    runAlone prog n s pid = runAloneC prog n s pid := by
+  intro n
+  induction n with
+  | zero => intro s _; rfl
+  | succ n ih =>
+    intro s hd
+    have hst : step prog s (.step pid) = stepCore prog s (.step pid) := by
+      simp only [step, hd]; rfl
+    cases hf : findProc s.procs pid with
+    | none => simp [runAlone, runAloneC, hf]
+    | some p =>
+      by_cases hal : p.alive = true
+      · simp only [runAlone, runAloneC, hf, hal, if_true, hst]
+        exact ih _ (by rw [stepCore_step_dying]; exact hd)
+      · simp [runAlone, runAloneC, hf, hal]
+
 /-- One step of the invocation that runs alone. -/
 theorem calm_step {prog : Prog} {ann1 : Ann safety} {ann2 : Ann numbering} {ann : Ann calm}
     (hc : check calm prog ann = true) (hfw : forward calm prog ann = true)
-    {s : State} {pid : Nat} (h1 : Inv1 ann1 s) (h2 : Inv2 ann2 s) (hcs : CalmSt ann s pid)
+    {ann4 : Ann code} {s : State} {pid : Nat} (h1 : Inv1 ann1 s) (h2 : Inv2 ann2 s) (h4 : Inv4 ann4 s) (hcs : CalmSt ann s pid)
     {p : Proc} (hf : findProc s.procs pid = some p) (hal : p.alive = true) :
-    CalmSt ann (step prog s (.step pid)) pid ∧
-    ∃ p', findProc (step prog s (.step pid)).procs pid = some p' ∧ (p'.alive = true → p.pc < p'.pc) := by
+    CalmSt ann (stepCore prog s (.step pid)) pid ∧
+    ∃ p', findProc (stepCore prog s (.step pid)).procs pid = some p' ∧ (p'.alive = true → p.pc < p'.pc) := by
   obtain ⟨hoth, p0, hf0, hme⟩ := hcs
   rw [hf] at hf0; injection hf0 with hf0; subst hf0
   obtain ⟨hpm, hpp⟩ := findProc_some hf
@@ -230,7 +265,7 @@ theorem calm_step {prog : Prog} {ann1 : Ann safety} {ann2 : Ann numbering} {ann 
     rcases mem_replaceProc hq with ⟨rfl, _⟩ | ⟨hq1, _⟩
     · exact absurd hp' hqp
     · exact hoth q hq1 hqp
-  simp only [step, hf, hal, if_true]
+  simp only [stepCore, hf, hal, if_true]
   by_cases hex : ∃ n, i.cmd = .exit n
   · obtain ⟨n, hn⟩ := hex
     rw [stepProc_exit hi hn]
@@ -248,7 +283,7 @@ theorem calm_step {prog : Prog} {ann1 : Ann safety} {ann2 : Ann numbering} {ann 
   · have hne : ∀ n, i.cmd ≠ .exit n := fun n h => hex ⟨n, h⟩
     obtain ⟨hfw1, hfw2⟩ := forward_at hfw (by simpa [instrAt] using hi) ha hne
     rw [stepProc_nonexit hi hne]
-    obtain ⟨x, hx, hΓ'⟩ := own3 (i := i) hΓ h1.gi h2.dh h2.vg (h2.vp p hpm) h2.n hreq
+    obtain ⟨x, hx, hΓ'⟩ := own3 (i := i) hΓ h1.gi h4.gi h2.dh h2.vg (h2.vp p hpm) h2.n hreq
     have hpid : (after i s.g p).pid = pid := by rw [after_pid]; exact hpp
     have hfp := findProc_replace (p' := after i s.g p) hf hpid
     have hal' : (after i s.g p).alive = true := by rw [after_alive, exec_alive]; exact hal
@@ -266,32 +301,33 @@ theorem calm_step {prog : Prog} {ann1 : Ann safety} {ann2 : Ann numbering} {ann 
 
 /-- The invocation that runs alone terminates with exit status 0 and the newest revision current. -/
 theorem calm_run {prog : Prog} {ann1 : Ann safety} {ann2 : Ann numbering} {ann : Ann calm}
-    (hc1 : check safety prog ann1 = true) (hc2 : check numbering prog ann2 = true)
+    {ann4 : Ann code} (hc1 : check safety prog ann1 = true) (hc2 : check numbering prog ann2 = true)
+    (hc4 : check code prog ann4 = true)
     (hc : check calm prog ann = true) (hfw : forward calm prog ann = true) (pid : Nat) :
-    ∀ (m : Nat) (s : State), Inv1 ann1 s → Inv2 ann2 s → CalmSt ann s pid →
+    ∀ (m : Nat) (s : State), Inv1 ann1 s → Inv2 ann2 s → Inv4 ann4 s → CalmSt ann s pid →
       (∀ p, findProc s.procs pid = some p → p.alive = true → prog.length - p.pc ≤ m) →
-      ∃ p, findProc (runAlone prog (m + 1) s pid).procs pid = some p ∧ p.alive = false ∧ p.exit = some 0 ∧
-        (runAlone prog (m + 1) s pid).g.newest = true ∧
-        (∀ q ∈ (runAlone prog (m + 1) s pid).procs, q.pid ≠ pid → q.alive = false) := by
+      ∃ p, findProc (runAloneC prog (m + 1) s pid).procs pid = some p ∧ p.alive = false ∧ p.exit = some 0 ∧
+        (runAloneC prog (m + 1) s pid).g.newest = true ∧
+        (∀ q ∈ (runAloneC prog (m + 1) s pid).procs, q.pid ≠ pid → q.alive = false) := by
   intro m
   induction m with
   | zero =>
-    intro s h1 h2 hcs hm
+    intro s h1 h2 h4 hcs hm
     obtain ⟨hoth, p, hf, hme⟩ := hcs
     rcases hme with ⟨hal, a, ha, _⟩ | ⟨hd, he, hn⟩
     · have hlt : p.pc < prog.length := by rw [← check_len hc]; exact at_some_lt ha
       have := hm p hf hal
       omega
-    · refine ⟨p, ?_, hd, he, ?_, ?_⟩ <;> simp [runAlone, hf, hd] <;> first | exact hn | exact hoth
+    · refine ⟨p, ?_, hd, he, ?_, ?_⟩ <;> simp [runAloneC, hf, hd] <;> first | exact hn | exact hoth
   | succ m ih =>
-    intro s h1 h2 hcs hm
+    intro s h1 h2 h4 hcs hm
     obtain ⟨hoth, p, hf, hme⟩ := hcs
     by_cases hal : p.alive = true
-    · obtain ⟨hcs', p', hf', hpc⟩ := calm_step hc hfw h1 h2 ⟨hoth, p, hf, hme⟩ hf hal
-      have e : runAlone prog (m + 1 + 1) s pid = runAlone prog (m + 1) (step prog s (.step pid)) pid := by
-        simp [runAlone, hf, hal]
+    · obtain ⟨hcs', p', hf', hpc⟩ := calm_step hc hfw h1 h2 h4 ⟨hoth, p, hf, hme⟩ hf hal
+      have e : runAloneC prog (m + 1 + 1) s pid = runAloneC prog (m + 1) (stepCore prog s (.step pid)) pid := by
+        simp [runAloneC, hf, hal]
       rw [e]
-      apply ih _ (inv1_step hc1 h1 _) (inv2_step hc1 hc2 h1 h2 _) hcs'
+      apply ih _ (inv1_stepCore hc1 h1 _) (inv2_stepCore hc1 hc2 h1 h2 _) (inv4_stepCore hc1 hc4 h1 h2 h4 _) hcs'
       intro q hq hqa
       rw [hf'] at hq; injection hq with hq; subst hq
       have := hpc hqa
@@ -300,23 +336,23 @@ theorem calm_run {prog : Prog} {ann1 : Ann safety} {ann2 : Ann numbering} {ann :
     · have hd : p.alive = false := by simpa using hal
       rcases hme with ⟨hal', _⟩ | ⟨_, he, hn⟩
       · rw [hd] at hal'; cases hal'
-      · refine ⟨p, ?_, hd, he, ?_, ?_⟩ <;> simp [runAlone, hf, hd] <;> first | exact hn | exact hoth
+      · refine ⟨p, ?_, hd, he, ?_, ?_⟩ <;> simp [runAloneC, hf, hd] <;> first | exact hn | exact hoth
 
 end NA.C19
 
 namespace NA.C19
 
 theorem inv1_runAlone {prog : Prog} {ann1 : Ann safety} (hc1 : check safety prog ann1 = true) (pid : Nat) :
-    ∀ (n : Nat) (s : State), Inv1 ann1 s → Inv1 ann1 (runAlone prog n s pid) := by
+    ∀ (n : Nat) (s : State), Inv1 ann1 s → Inv1 ann1 (runAloneC prog n s pid) := by
   intro n
   induction n with
   | zero => intro s h; exact h
   | succ n ih =>
     intro s h
-    simp only [runAlone]
+    simp only [runAloneC]
     split
     · split
-      · exact ih _ (inv1_step hc1 h _)
+      · exact ih _ (inv1_stepCore hc1 h _)
       · exact h
     · exact h
 
@@ -334,53 +370,298 @@ theorem findProc_append_new {ps : List Proc} {n : Nat} {p : Proc} (hfresh : ∀ 
 /-- Exit status of invocation `pid` (none = still running, killed or unknown). -/
 def exitOf (s : State) (pid : Nat) : Option Nat := (findProc s.procs pid).bind (·.exit)
 
+/-! ### `dying` only names invocations that exist -/
+
+def DyingOK (s : State) : Prop := ∀ pid ∈ s.dying, pid < s.npid
+
+theorem dyingOK_step {prog : Prog} {ann1 : Ann safety} {s : State} (h1 : Inv1 ann1 s) (h : DyingOK s) (e : Event) :
+    DyingOK (step prog s e) := by
+  have core : ∀ (s : State) (e : Event), DyingOK s → DyingOK (stepCore prog s e) := by
+    intro s e h pid hp
+    cases e with
+    | commit g po em => exact h pid hp
+    | spawn => have := h pid hp; show pid < s.npid + 1; omega
+    | killDuring q => exact h pid hp
+    | step q =>
+      have e1 : (stepCore prog s (.step q)).dying = s.dying := stepCore_step_dying s q
+      have e2 : (stepCore prog s (.step q)).npid = s.npid := by
+        simp only [stepCore]; split
+        · split <;> rfl
+        · rfl
+      rw [e1] at hp; rw [e2]; exact h pid hp
+    | kill q =>
+      have e1 : (stepCore prog s (.kill q)).dying = s.dying := by
+        simp only [stepCore]; split
+        · split <;> rfl
+        · rfl
+      have e2 : (stepCore prog s (.kill q)).npid = s.npid := by
+        simp only [stepCore]; split
+        · split <;> rfl
+        · rfl
+      rw [e1] at hp; rw [e2]; exact h pid hp
+  cases e with
+  | killDuring q =>
+    cases hf : findProc s.procs q with
+    | none => simp only [step, hf]; exact h
+    | some p =>
+      have hlt : q < s.npid := by
+        obtain ⟨hpm, hpp⟩ := findProc_some hf
+        rw [← hpp]; exact h1.fresh p hpm
+      have hadd : ∀ g : G, DyingOK { s with g := g, dying := q :: s.dying } := by
+        intro g pid hp
+        simp only [List.mem_cons] at hp
+        rcases hp with hp | hp
+        · rw [hp]; exact hlt
+        · exact h pid hp
+      cases hi : instrAt prog p.pc with
+      | none => simp only [step, hf, hi]; exact core s _ h
+      | some i =>
+        simp only [step, hf, hi]
+        split
+        · split
+          · exact hadd s.g
+          · exact hadd _
+        · exact core s _ h
+  | step q =>
+    simp only [step]
+    split
+    · apply core
+      intro pid hp
+      have hp' : pid ∈ (stepCore prog s (.step q)).dying := by
+        simp only [List.mem_filter] at hp; exact hp.1
+      exact core s (.step q) h pid hp'
+    · exact core s _ h
+  | commit g po em => exact core s (.commit g po em) h
+  | spawn => exact core s .spawn h
+  | kill q => exact core s (.kill q) h
+
+theorem dyingOK_run {prog : Prog} {ann1 : Ann safety} (hinh : inhOK prog = true)
+    (hc1 : check safety prog ann1 = true) (se : Bool)
+    (es : List Event) : DyingOK (run prog se es) := by
+  unfold run
+  have h0 : Inv1 ann1 (init se) ∧ DyingOK (init se) := ⟨inv1_init hc1 se, fun pid hp => by simp [init] at hp⟩
+  generalize init se = s0 at h0
+  induction es generalizing s0 with
+  | nil => exact h0.2
+  | cons e es ih => exact ih _ ⟨inv1_step hinh hc1 h0.1 e, dyingOK_step h0.1 h0.2 e⟩
+
+/-! ### The ghosts do not influence the run -/
+
+/-- A state with the ghost components (`hist`, `trouble`, `edited`, `raced`) blanked. -/
+def G.core (g : G) : G := { g with hist := [], trouble := false, edited := false, raced := false }
+
+@[simp] theorem core_store (g : G) : g.core.store = g.store := rfl
+@[simp] theorem core_remote (g : G) : g.core.remote = g.remote := rfl
+@[simp] theorem core_next (g : G) : g.core.next = g.next := rfl
+@[simp] theorem core_dirs (g : G) : g.core.dirs = g.dirs := rfl
+@[simp] theorem core_current (g : G) : g.core.current = g.current := rfl
+@[simp] theorem core_lock (g : G) : g.core.lock = g.lock := rfl
+@[simp] theorem core_sysEmail (g : G) : g.core.sysEmail = g.sysEmail := rfl
+@[simp] theorem core_nextHead (g : G) : g.core.nextHead = g.nextHead := rfl
+@[simp] theorem core_nextTree (g : G) : g.core.nextTree = g.nextTree := rfl
+@[simp] theorem core_uptodateDir (g : G) : g.core.uptodateDir = g.uptodateDir := rfl
+theorem core_snh (g : G) (h : Nat) : (g.setNextHead h).core = g.core.setNextHead h := by
+  unfold G.setNextHead; cases hn : g.next <;> simp [hn, G.core]
+
+theorem exec_core_pull (g : G) (p : Proc) :
+    (exec .gitPullMerge g p).1.core = (exec .gitPullMerge g.core p).1.core ∧
+    (exec .gitPullMerge g p).2 = (exec .gitPullMerge g.core p).2 := by
+  simp only [exec, core_store, core_remote, core_sysEmail, core_nextHead]
+  cases hh : g.nextHead with
+  | none => exact ⟨rfl, rfl⟩
+  | some h =>
+    by_cases h1 : g.remote = p.base
+    · simp [h1]; rfl
+    · by_cases h2 : h = p.base
+      · simp [h1, h2, core_snh]; rfl
+      · by_cases h3 : ((commitAt g.store g.remote).pol != (commitAt g.store p.base).pol &&
+            (commitAt g.store h).pol != (commitAt g.store p.base).pol &&
+            (commitAt g.store g.remote).pol != (commitAt g.store h).pol) = true
+        · simp [h1, h2, h3]; rfl
+        · simp [h1, h2, h3, core_snh]; rfl
+
+theorem exec_core (c : Cmd) (g : G) (p : Proc) :
+    (exec c g p).1.core = (exec c g.core p).1.core ∧ (exec c g p).2 = (exec c g.core p).2 := by
+  by_cases hc : c = .gitPullMerge
+  · subst hc; exact exec_core_pull g p
+  cases c <;> (try (exact absurd rfl hc)) <;>
+    simp only [exec, core_store, core_remote, core_next, core_dirs, core_current, core_lock, core_sysEmail,
+      core_nextHead, core_nextTree, core_uptodateDir] <;>
+    (repeat' split) <;> first | exact ⟨rfl, rfl⟩ | (simp_all [G.core, G.setNextHead]; done) | skip
+  all_goals (simp only [*, if_false, if_true, ite_false, ite_true, core_snh, Bool.false_eq_true]; first | exact ⟨rfl, rfl⟩ | (simp [G.core, G.setNextHead]; done) | skip)
+
+theorem core_release (g : G) (pid : Nat) : (release g pid).core = (release g.core pid).core := by
+  by_cases h : g.lock = some pid <;> simp [release, G.core, h]
+
+theorem exec_sim {c : Cmd} {g1 g2 : G} {p : Proc} (h : g1.core = g2.core) :
+    (exec c g1 p).1.core = (exec c g2 p).1.core ∧ (exec c g1 p).2 = (exec c g2 p).2 := by
+  obtain ⟨a1, a2⟩ := exec_core c g1 p
+  obtain ⟨b1, b2⟩ := exec_core c g2 p
+  rw [a1, a2, b1, b2, h]; exact ⟨rfl, rfl⟩
+
+theorem stepProc_sim {prog : Prog} {g1 g2 : G} {p : Proc} (h : g1.core = g2.core) :
+    (stepProc prog g1 p).1.core = (stepProc prog g2 p).1.core ∧ (stepProc prog g1 p).2 = (stepProc prog g2 p).2 := by
+  have hrel : (release g1 p.pid).core = (release g2 p.pid).core := by
+    rw [core_release g1, core_release g2, h]
+  cases hi : instrAt prog p.pc with
+  | none =>
+    have e : ∀ g, stepProc prog g p = (release g p.pid, { p with alive := false, exit := some 0 }) := by
+      intro g; simp [stepProc, hi]
+    rw [e g1, e g2]; exact ⟨hrel, rfl⟩
+  | some i =>
+    by_cases hex : ∃ n, i.cmd = .exit n
+    · obtain ⟨n, hn⟩ := hex
+      rw [stepProc_exit (g := g1) hi hn, stepProc_exit (g := g2) hi hn]; exact ⟨hrel, rfl⟩
+    · have hne : ∀ n, i.cmd ≠ .exit n := fun n h => hex ⟨n, h⟩
+      obtain ⟨e1, e2⟩ := exec_sim (c := i.cmd) (p := p) h
+      rw [stepProc_nonexit (g := g1) hi hne, stepProc_nonexit (g := g2) hi hne]
+      refine ⟨e1, ?_⟩
+      simp only [after]; rw [e2]
+
+/-- Two states that differ only in the ghosts. -/
+def Sim (s t : State) : Prop := s.g.core = t.g.core ∧ s.procs = t.procs ∧ s.npid = t.npid
+
+theorem sim_stepCore {prog : Prog} {s t : State} (h : Sim s t) (pid : Nat) :
+    Sim (stepCore prog s (.step pid)) (stepCore prog t (.step pid)) := by
+  obtain ⟨hg, hp, hn⟩ := h
+  simp only [stepCore, ← hp]
+  cases hf : findProc s.procs pid with
+  | none => exact ⟨hg, hp, hn⟩
+  | some p =>
+    by_cases hal : p.alive = true
+    · simp only [hal, if_true]
+      obtain ⟨e1, e2⟩ := stepProc_sim (prog := prog) (p := p) hg
+      exact ⟨e1, by simp only [e2], hn⟩
+    · simp only [hal]; exact ⟨hg, hp, hn⟩
+
+theorem sim_runAloneC {prog : Prog} (pid : Nat) : ∀ (n : Nat) (s t : State), Sim s t →
+    Sim (runAloneC prog n s pid) (runAloneC prog n t pid) := by
+  intro n
+  induction n with
+  | zero => intro s t h; exact h
+  | succ n ih =>
+    intro s t h
+    simp only [runAloneC, ← h.2.1]
+    cases hf : findProc s.procs pid with
+    | none => exact h
+    | some p =>
+      by_cases hal : p.alive = true
+      · simp only [hal, if_true]; exact ih _ _ (sim_stepCore h pid)
+      · simp only [hal]; exact h
+
+theorem newest_core (g : G) : g.newest = g.core.newest := rfl
+
+/-- The ghosts replaced by values that make the numbering invariant true: every number up to
+max(POLICY file, link), newest first. -/
+def G.reset (g : G) : G :=
+  { g with trouble := false, edited := false, raced := false, hist := (List.range (max (Rg g) (Lk g) + 1)).reverse }
+
+theorem reset_core (g : G) : g.reset.core = g.core := rfl
+
+theorem lookupDir_mem {ds : List (Nat × Dir)} {n : Nat} {d : Dir} (h : lookupDir ds n = some d) : (n, d) ∈ ds := by
+  induction ds with
+  | nil => simp [lookupDir] at h
+  | cons x xs ih =>
+    obtain ⟨k, e⟩ := x
+    by_cases hk : k = n
+    · simp [lookupDir, hk] at h; subst h; subst hk; simp
+    · simp [lookupDir, hk] at h; exact List.mem_cons_of_mem _ (ih h)
+
 /-- The `_partial` promotion theorem, generic in the program. -/
-theorem promotes_of_checks {prog : Prog} {ann1 : Ann safety} {ann2 : Ann numbering} {ann : Ann calm}
+theorem promotes_of_checks {prog : Prog} {ann1 : Ann safety} {ann2 : Ann numbering} {ann4 : Ann code} {ann : Ann calm}
+    (hinh : inhOK prog = true)
     (hc1 : check safety prog ann1 = true) (hc2 : check numbering prog ann2 = true)
+    (hc4 : check code prog ann4 = true)
     (hc : check calm prog ann = true) (hfw : forward calm prog ann = true)
     (se : Bool) (es : List Event)
     (hq : quiescent (run prog se es) = true)
     (hgood : (commitAt (run prog se es).g.store (run prog se es).g.remote).good = true)
     (hstale : (run prog se es).g.staleNext = false)
-    (ht : (run prog se es).g.trouble = false) (he : (run prog se es).g.edited = false) :
+    (hcov : (run prog se es).g.numbersCovered = true) :
     quiescent (runNew prog (prog.length + 1) (run prog se es)) = true ∧
     exitOf (runNew prog (prog.length + 1) (run prog se es)) (run prog se es).npid = some 0 ∧
     (runNew prog (prog.length + 1) (run prog se es)).g.newest = true := by
-  obtain ⟨h1, h2⟩ := inv2_run hc1 hc2 se es
-  have hlk := lock_none_of_quiescent (lockOK_run (prog := prog) se es) hq
+  obtain ⟨h1, h2, h4⟩ := inv124_run hinh hc1 hc2 hc4 se es
+  have hlk := lock_none_of_quiescent (lockOK_run (prog := prog) hinh se es) hq
+  have hdy := dyingOK_run (prog := prog) hinh hc1 se es
   generalize run prog se es = s at *
-  have h1' := inv1_step hc1 h1 .spawn
-  have h2' := inv2_step hc1 hc2 h1 h2 .spawn
-  have hfnew : findProc (step prog s .spawn).procs s.npid = some { pid := s.npid } := by
-    simp only [step]; exact findProc_append_new h1.fresh rfl
+  have hdead : ∀ q ∈ s.procs, q.alive = false := by
+    intro q hq'
+    simp only [quiescent, List.all_eq_true] at hq
+    simpa using hq q hq'
+  -- the same state with harmless ghosts
+  let t : State := { s with g := s.g.reset }
+  have hM : ∀ x, x ∈ (List.range (max (Rg s.g) (Lk s.g) + 1)).reverse ↔ x ≤ max (Rg s.g) (Lk s.g) := by
+    intro x; rw [List.mem_reverse, List.mem_range]; omega
+  have t1 : Inv1 ann1 t :=
+    ⟨⟨h1.gi.dirs, h1.gi.cur⟩, h1.uniq, h1.fresh, fun p hp ha => by rw [hdead p hp] at ha; cases ha⟩
+  have t2 : Inv2 ann2 t := by
+    refine ⟨?_, ⟨h2.vg.remote, h2.vg.head⟩, fun p hp => ⟨(h2.vp p hp).base, (h2.vp p hp).hash⟩, fun _ => ⟨?_, ?_⟩,
+      fun _ p hp ha => by rw [hdead p hp] at ha; cases ha⟩
+    · intro n d hd
+      show n ∈ (List.range (max (Rg s.g) (Lk s.g) + 1)).reverse
+      rw [hM]
+      have := lookupDir_mem hd
+      simp only [G.numbersCovered, List.all_eq_true] at hcov
+      simpa [Rg, polOf, Lk] using hcov (n, d) this
+    · intro x hx
+      exact (hM x).mp hx
+    · show ((List.range (max (Rg s.g) (Lk s.g) + 1)).reverse).Pairwise (· > ·)
+      rw [List.pairwise_reverse]; exact List.pairwise_lt_range
+  have t4 : Inv4 ann4 t :=
+    ⟨⟨h4.gi.dirs, h4.gi.rpos, h4.gi.hpos⟩, fun p hp ha => by rw [hdead p hp] at ha; cases ha⟩
+  have t1' := inv1_stepCore (prog := prog) hc1 t1 .spawn
+  have t2' := inv2_stepCore (prog := prog) hc1 hc2 t1 t2 .spawn
+  have t4' := inv4_stepCore (prog := prog) hc1 hc4 t1 t2 t4 .spawn
+  have hfnew : findProc (stepCore prog t .spawn).procs s.npid = some { pid := s.npid } := by
+    simp only [stepCore]; exact findProc_append_new h1.fresh rfl
   obtain ⟨a, ha, hle⟩ := check_entry hc
-  have hΓ0 : Γ3 calm.entry s.g { pid := s.npid } := by
-    refine ⟨Γ1_entry _ _ rfl, fun _ => Γ2_entry _ _, ?_⟩
-    constructor <;> intro hf <;> simp [calm] at hf
-    · exact Or.inl hlk
-    · exact hstale
-    · exact hgood
-    · exact ⟨ht, he⟩
-  have hcs : CalmSt ann (step prog s .spawn) s.npid := by
+  have hΓ0 : Γ3 calm.entry t.g { pid := s.npid } := by
+    refine ⟨Γ1_entry _ _ rfl, fun _ => Γ2_entry _ _, ?_, ?_⟩
+    · exact ⟨fun h => by simp [calm, code] at h, fun h => by simp [calm, code] at h, fun h => by simp [calm, code] at h,
+        fun h => by simp [calm, code] at h, fun h => by simp [calm, code] at h, fun h => by simp [calm, code] at h⟩
+    · constructor <;> intro hf <;> simp [calm] at hf
+      · exact Or.inl hlk
+      · exact hstale
+      · exact hgood
+      · exact ⟨rfl, rfl⟩
+  have hcs : CalmSt ann (stepCore prog t .spawn) s.npid := by
     refine ⟨?_, _, hfnew, Or.inl ⟨rfl, a, ha, ?_⟩⟩
     · intro q hq' hqp
-      simp only [step, List.mem_append, List.mem_singleton] at hq'
+      simp only [stepCore, List.mem_append, List.mem_singleton] at hq'
       rcases hq' with hq' | hq'
-      · simp only [quiescent, List.all_eq_true] at hq
-        simpa using hq q hq'
+      · exact hdead q hq'
       · subst hq'; exact absurd rfl hqp
-    · exact (by simpa [step] using hΓ0 : Γ3 calm.entry (step prog s .spawn).g _).mono hle
-  obtain ⟨p, hfp, hd, hex, hnew, hoth⟩ := calm_run hc1 hc2 hc hfw s.npid prog.length _ h1' h2' hcs (by
-    intro p _ _; omega)
-  have hinvF := inv1_runAlone hc1 s.npid (prog.length + 1) _ h1'
-  refine ⟨?_, ?_, hnew⟩
-  · simp only [runNew, quiescent, List.all_eq_true]
+    · exact (by simpa [stepCore] using hΓ0 : Γ3 calm.entry (stepCore prog t .spawn).g _).mono hle
+  obtain ⟨p, hfp, hd, hex, hnew, hoth⟩ :=
+    calm_run hc1 hc2 hc4 hc hfw s.npid prog.length _ t1' t2' t4' hcs (by intro p _ _; omega)
+  have hinvF := inv1_runAlone hc1 s.npid (prog.length + 1) _ t1'
+  -- back to the real state: same processes, same database
+  have hsim : Sim (runAloneC prog (prog.length + 1) (stepCore prog s .spawn) s.npid)
+      (runAloneC prog (prog.length + 1) (stepCore prog t .spawn) s.npid) :=
+    sim_runAloneC s.npid _ _ _ ⟨rfl, rfl, rfl⟩
+  have hrun : runNew prog (prog.length + 1) s = runAloneC prog (prog.length + 1) (stepCore prog s .spawn) s.npid := by
+    unfold runNew
+    have : step prog s .spawn = stepCore prog s .spawn := rfl
+    rw [this]
+    apply runAlone_eq
+    show s.dying.contains s.npid = false
+    cases hcn : s.dying.contains s.npid with
+    | false => rfl
+    | true =>
+      have := hdy s.npid (by simpa using hcn)
+      omega
+  rw [hrun]
+  obtain ⟨sg, sp, _⟩ := hsim
+  refine ⟨?_, ?_, ?_⟩
+  · simp only [quiescent, List.all_eq_true, sp]
     intro q hq'
     by_cases hqp : q.pid = s.npid
     · obtain ⟨hpm, hpp⟩ := findProc_some hfp
       have : q = p := hinvF.uniq q hq' p hpm (by rw [hqp, hpp])
       simp [this, hd]
     · simp [hoth q hq' hqp]
-  · simp [runNew, exitOf, hfp, hex]
+  · simp [exitOf, sp, hfp, hex]
+  · rw [newest_core, sg, ← newest_core]; exact hnew
 
 end NA.C19
